@@ -265,6 +265,8 @@ def gen_aglob(rng):
                 for _ in range(rng.randint(1, 3)):
                     bs.append([] if rng.random() < 0.2 else gen_gpieces(rng, rng.random() < 0.04))
                 its.append((1, bs))
+            elif rng.random() < 0.08:
+                its.append((2,))                      # a ',' outside braces
             else:
                 it = gen_gitem(rng, bool(its) and its[-1] == (0, (3,)))
                 its.append((0, it))
@@ -280,6 +282,7 @@ SYNTAX_CORPUS = [
     [(1,), (0, [(1, [[(1,), (0, [(0, 97)])], [(0, [(0, 98)]), (1,)], [(0, [(0, 99)]), (1,), (0, [(0, 100)])]])]), (1,)],
     # **/{**/a,b/**,c/**/d}/**
     [(0, [(0, (0, 120)), (1, [[(0, [(1, 44)])], [(0, [(1, 123), (3,)])]]), (0, (3,))])],  # x{\,,\{*}*
+    [(0, [(0, (0, 97)), (2,), (1, [[(0, [(0, 98)])], [(0, [(1, 44)])]]), (2,), (0, (3,))])],  # a,{b,\,},*
     [(0, [(1, [[(1,)], [(0, [(0, 98)])]])])],                                             # {**,b}: lone `**` (not ok)
 ]
 
@@ -299,6 +302,8 @@ def enc_gpiece(p):
 def enc_aitem(i):
     if i[0] == 0:
         return vlist(["0", enc_gitem(i[1])])
+    if i[0] == 2:
+        return vlist(["2"])
     return vlist(["1", vlist([vlist([enc_gpiece(p) for p in b]) for b in i[1]])])
 
 
@@ -359,7 +364,8 @@ def check_syntax(ctx, cases):
             continue
         cov["syntax_trees_well_formed"] = cov.get("syntax_trees_well_formed", 0) + 1
         for k, f in (("with_alternates", nalt > 0), ("with_two_or_more_alternations", nalt > 1),
-                     ("with_empty_alternative", empty), ("with_dstar_in_alternative", dstar)):
+                     ("with_empty_alternative", empty), ("with_dstar_in_alternative", dstar),
+                     ("with_comma_outside_braces", any(i[0] == 2 for q in g if q[0] == 0 for i in q[1]))):
             if f:
                 cov["syntax_trees_" + k] = cov.get("syntax_trees_" + k, 0) + 1
         ctx.note_case(line, nalt > 0)
